@@ -87,10 +87,18 @@ def install() -> None:
 
     async def _wait_for_data(self, requester: str, external_buffer: Any):
         waiter_box: list = []
+        task = asyncio.current_task()
+        c0 = task.cancelling() if task is not None else 0
         try:
             coro = orig_wait(self, requester, external_buffer)
             # observe the waiter created by the original coroutine on its first step
-            return await _Watch(coro, self, waiter_box)
+            res = await _Watch(coro, self, waiter_box)
+            if task is not None and task.cancelling() > c0:
+                # task.cancel() was called while the receive was waiting (asyncio then throws CancelledError into the step
+                # that resumes it, whatever the state of the awaited future) and yet the receive returned normally
+                EVENTS.append(("completed-despite-cancel", requester))
+                EVENTS.append(("read-then-cancel", 0, None))  # the order was produced all the same (nothing lost)
+            return res
         except asyncio.CancelledError:
             w = waiter_box[0] if waiter_box else None
             if w is not None and w.done() and not w.cancelled() and w.exception() is None and w.result():
